@@ -37,7 +37,7 @@ BOTH = "{FALSE, TRUE}"
 cfg("rs_expA.cfg", "exp")
 cfg("rs_expA0.cfg", "exp", Outcomes="OutFalsy")
 # tags() inside a test followed by another test, on every stack with a TestByTestResult leaf (the callback carries the test's tags)
-cfg("rs_expA1.cfg", "exp", Stacks="StacksByTest", Outcomes="Out1", TagOps="TagOps3", MaxTagOps=2, MaxCalls=10)
+cfg("rs_expA1.cfg", "exp", Stacks="StacksByTest", Outcomes="Out1", TagOps="TagOps2", MaxTagOps=2, MaxCalls=10)
 cfg("rs_expB.cfg", "exp", Stacks="StacksTimes", Outcomes="Out1", MaxTests=1, MaxTimes=2, MaxCalls=9, AllowDone="TRUE", AllowProgress="TRUE")
 cfg("rs_expB3.cfg", "exp", Stacks="StacksTimes", Outcomes="Out1", MaxTests=1, MaxTimes=3, MaxCalls=9, AllowDone="TRUE", AllowProgress="TRUE")
 cfg("rs_expB2.cfg", "exp", Stacks="StacksTimes", Outcomes="Out2", MaxTests=2, MaxTimes=2, MaxCalls=10, AllowDone="TRUE", AllowProgress="TRUE")
